@@ -100,6 +100,12 @@ def _job(job) -> List[Dict[str, Any]]:
     rate = roles.model.lookup("rate")
     line = rate.node.lineno
     kw = {"tau": "any", "limit_sigma": ls}
+    if ls == "model-truthy":
+        # the cap is switched on at the model level and the call leaves the argument at None
+        from ..ai.values import Bool
+
+        kw["limit_sigma"] = "None"
+        kw["model_overrides"] = {"limit_sigma": Bool(True, frozenset({"CTOR:limit_sigma"}), ("param", "model.limit_sigma"))}
     if sel:
         kw[sel] = "list-of-mixed-int-float-bool"
     case = f"{sel or 'no ranks'}, limit_sigma={ls}"
@@ -155,9 +161,9 @@ def _job(job) -> List[Dict[str, Any]]:
     elif not a["problems"] and not a["undecided"]:
         inst("R2.5", "HOLDS", f"the passed objects are untouched ({case})")
     # ---------------------------------------------------------------- R2.7 the clamp pairs each player with its own prior
-    if ls in ("truthy", "any"):
+    if ls in ("truthy", "any", "model-truthy"):
         clamp = [ev for ev in writes if ev.data["field"] == "sigma" and any(t.endswith(":limit_sigma") for t in getattr(ev.data.get("val"), "prov", frozenset()))]
-        if ls == "truthy" and not clamp:
+        if ls in ("truthy", "model-truthy") and not clamp:
             inst("R2.7", "VIOLATED", "limit_sigma cap", "with limit_sigma in force no store caps a returned sigma")
         for ev in clamp:
             tgt = ev.data["ptr"]
@@ -186,6 +192,7 @@ def run(prog: Program, rep: Report, tier: str = "quick") -> None:
     rep.assume("the rating objects passed in are pairwise distinct objects")
     rep.not_decided = ["the numeric content of the posteriors (C01)"]
     jobs = [(i, sel, ls) for i in range(len(roles)) for sel in ("ranks", "scores", None) for ls in ("truthy", "falsy")]
+    jobs += [(i, "ranks", "model-truthy") for i in range(len(roles))]
     seen = set()
     for lst in parallel_map(_job, jobs):
         for d in lst:
